@@ -29,9 +29,13 @@ Section SetRun.
   Definition enc_trace (t : list (list A * SortedSet.out A)) : list Z :=
     flat_map (fun sx => enc_items (fst sx) ++ enc_out (snd sx)) t.
 
-  (* the model, started from the empty set, reproduces the recorded (items, result) after every operation *)
-  Definition set_check (ops : list (SortedSet.op A)) (expected : Z) : bool :=
-    hlist (enc_trace (SortedSet.run A ltb eqb [] ops)) =? expected.
+  Definition enc_trace2 (t : list ((list A * list A) * SortedSet.out A)) : list Z :=
+    flat_map (fun sx => enc_items (fst (fst sx)) ++ enc_items (snd (fst sx)) ++ enc_out (snd sx)) t.
+
+  (* the model (the set and its copy register, both empty at first) reproduces the recorded (items of the set, items of
+     the copy, result) after every operation *)
+  Definition set_check (ops : list (SortedSet.op2 A)) (expected : Z) : bool :=
+    hlist (enc_trace2 (SortedSet.run2 A ltb eqb ([], []) ops)) =? expected.
 End SetRun.
 
 Definition enc_z (x : Z) : list Z := [x].
@@ -39,9 +43,9 @@ Definition enc_lz (x : list Z) : list Z := Z.of_nat (length x) :: x.
 Definition chk_z := set_check Z z_ltb z_eqb enc_z.
 Definition chk_lz := set_check (list Z) lz_ltb lz_eqb enc_lz.
 Definition chk_bm := set_check Z bm_ltb bm_eqb enc_z.
-Definition trace_z ops := SortedSet.run Z z_ltb z_eqb [] ops.
-Definition trace_lz ops := SortedSet.run (list Z) lz_ltb lz_eqb [] ops.
-Definition trace_bm ops := SortedSet.run Z bm_ltb bm_eqb [] ops.
+Definition trace_z ops := SortedSet.run2 Z z_ltb z_eqb ([], []) ops.
+Definition trace_lz ops := SortedSet.run2 (list Z) lz_ltb lz_eqb ([], []) ops.
+Definition trace_bm ops := SortedSet.run2 Z bm_ltb bm_eqb ([], []) ops.
 
 (* maps: keys are (object id, serialized bytes), values ints *)
 Definition mk := (Z * list Z)%type.
